@@ -50,7 +50,7 @@ def main():
         meta['ran'].append('demo with change -> %d' % rc1)
         meta['demo_with_change'] = rc1
         meta['demo_output'] = out1[-600:]
-        sh('git checkout -- . && git clean -fdq src test', cwd=wt)
+        sh('git reset -q --hard HEAD && git clean -fdq src test', cwd=wt)
         rc0, out0 = sh('/venv/bin/python %s %s' % (os.path.abspath(demo), wt), cwd=wt, timeout=600)
         meta['ran'].append('demo without change -> %d' % rc0)
         meta['demo_without_change'] = rc0
